@@ -20,7 +20,7 @@ ASSUMPTIONS = [
     "a dictionary with an entry that does not fit in 117 bytes may be refused (any exception) or encoded in a larger block; only emptiness and decoding are judged for it",
     "extra blocks are non-empty and at most 255 bytes",
 ]
-TIMEOUT = {"quick": 1800, "thorough": 4 * 3600}
+TIMEOUT = {"quick": 900, "thorough": 4 * 3600}
 NSH = 16
 
 
